@@ -138,8 +138,9 @@ let next_words t =
   | "nil" :: r -> t.rest <- r; ([], "nil")
   | "zero" :: r -> t.rest <- r; ([], "zero")
   | _ -> (next_list t next_bytes, "list")
-let next_sep t =
+let rec next_sep t =
   match next t with
+  | "both" -> let _ = next_bytes t in next_sep t     (* SeparatorChar and SeparatorFunc both set: the function is used *)
   | "char" -> SepChar (next_bytes t)
   | "const" -> SepConst (next_bytes t)
   | "recipe" -> SepRecipe (next_recipe t)
